@@ -121,6 +121,19 @@ def build_program(rng, nvals):
             body.append((rng.choice(['call FARFN', 'tail FARFN', 'call LA', 'tail LB', 'jalr x1, x5, 8', 'lw x11, 12(x5)', 'sw x11, -4(x2)', 'jal x1, LA',
                                      'beq x5, x6, 8', 'dw 0x12345678', 'li x5, 0x12345',
                                      'addi x8, x8, 1', 'mv x9, x10', 'add x8, x8, x9', 'lw x8, 4(x9)', 'li x9, 5', 'addi sp, sp, -16']), None))
+        if rng.random() < 0.08:
+            # the assembler's own auipc + jalr pair: a far call / tail to an absolute address, placed so that the low 12 bits of the
+            # distance are around 0 / 0x800 as seen from where this line sits while every pair before it still has its full size
+            here = sum(8 if (l.startswith(('li ', 'lui', 'auipc', 'call', 'tail'))) else (4 if '=' not in l and not l.endswith(':') else 0) for l, _ in body)
+            v = (here + rng.choice([0x20000000, 0x7ff00000, 0x00400000, 0xc0000000]) + rng.choice([0, 0x800, 0x7fc, 0x1000])
+                 + 2 * rng.randrange(-10, 11)) & M32 & ~1
+            body.append(('FV%d = %s' % (k, spell(rng, v)), None))
+            first = len(body)
+            m = rng.choice(['call', 'tail'])
+            body.append(('%s FV%d' % (m, k), None))
+            body.append(('addi x0, x0, 0', None))
+            checks.append((m, first, 1 if m == 'call' else 6, ('lit', v), 'FV%d' % k))
+            continue
         v = interesting_value(rng)
         form = rng.choice(['lit', 'const', 'label', 'position', 'constexpr', 'label', 'position', 'parenexpr'])
         name = 'V%d' % k
@@ -173,7 +186,7 @@ def build_program(rng, nvals):
                     btxt = '%d >> %d' % (base << sh, sh)
             e = '%%position(%s, %s)' % (lab, btxt)
             val = ('label', lab, base)
-        kind = rng.choice(['lui_addi', 'lui_lw', 'lui_sw', 'auipc_addi', 'auipc_jalr', 'lui_addi', 'li', 'li'])
+        kind = rng.choice(['lui_addi', 'lui_lw', 'lui_sw', 'auipc_addi', 'auipc_jalr', 'lui_addi', 'li', 'li', 'lui_jalr'])
         rd = rng.choice([5, 6, 7, 8, 9, 10, 15, 28])
         if kind == 'li':
             # `li rd, expr` is documented as lui %hi + addi %lo of the same expression: one line, executed as a whole
@@ -183,8 +196,8 @@ def build_program(rng, nvals):
             checks.append((kind, first, rd, val, e))
             continue
         rd = rng.choice([5, 6, 7, 8, 9, 10, 15, 28])
-        if kind == 'auipc_jalr' and val[0] == 'lit' and (val[1] & 1):
-            kind = 'auipc_addi'
+        if kind in ('auipc_jalr', 'lui_jalr') and val[0] == 'lit' and (val[1] & 1):
+            kind = 'auipc_addi'              # (the assembler documents jalr offsets as multiples of 2)
         if kind == 'auipc_jalr' and val[0] == 'label':
             kind = 'lui_addi'
         first = len(body)
@@ -200,6 +213,10 @@ def build_program(rng, nvals):
         elif kind == 'auipc_addi':
             body.append(('auipc x%d, %s' % (rd, hl(rng, 'hi', e)), None))
             body.append(('addi x%d, x%d, %s' % (rd, rd, hl(rng, 'lo', e)), None))
+        elif kind == 'lui_jalr':
+            # an absolute jump: link register x1 / x0 and any base register, so that the pair is also what c.jalr / c.jr expand to
+            body.append(('lui x%d, %s' % (rd, hl(rng, 'hi', e)), None))
+            body.append(('jalr x%d, x%d, %s' % (rng.choice([1, 0, 1, 5]), rd, hl(rng, 'lo', e)), None))
         else:
             body.append(('auipc x%d, %s' % (rd, hl(rng, 'hi', e)), None))
             body.append(('jalr x1, x%d, %s' % (rd, hl(rng, 'lo', e)), None))
@@ -266,7 +283,7 @@ def run_program(asm, acc, lines, checks, compress, seedinfo):
     for (kind, first, rd, val, e) in checks:
         st0 = lay.chunks[first][0]
         end = lay.chunks[first + 1][0] + len(lay.chunks[first + 1][1])
-        if kind == 'li':
+        if kind in ('li', 'call', 'tail'):
             end = st0 + len(lay.chunks[first][1])
         if val[0] == 'lit':
             v = val[1] & M32
@@ -279,8 +296,8 @@ def run_program(asm, acc, lines, checks, compress, seedinfo):
             if m.step() is None:
                 break
             steps += 1
-        if kind == 'li' and steps == 1 and m.trap is None:
-            steps = 2          # a value that fits 12 bits is a single instruction
+        if kind in ('li', 'call', 'tail') and steps == 1 and m.trap is None:
+            steps = 2          # a value that fits 12 bits / a target within 1 MiB is a single instruction
         acc['ntkeys'].add(core.ckey(kind, v, e, compress))
         acc['ctr']['pair:' + kind] += 1
         what = None
@@ -298,6 +315,10 @@ def run_program(asm, acc, lines, checks, compress, seedinfo):
             what = 'memory access %r' % (m.accesses,)
         elif kind == 'auipc_jalr' and m.pc != ((st0 + v) & M32 & ~1):
             what = 'pc = %#x, expected %#x' % (m.pc, (st0 + v) & M32)
+        elif kind in ('call', 'tail') and m.pc != v:
+            what = 'pc = %#x, expected %#x' % (m.pc, v)
+        elif kind == 'lui_jalr' and m.pc != (v & ~1):
+            what = 'pc = %#x, expected %#x' % (m.pc, v & ~1)
         if what:
             core.add_viol(acc, '%s pair for %s (value %#x, compress=%s) does not address the value: %s; bytes %s' % (
                 kind, e, v, compress, what, out[st0:end].hex()), case, {'lines': lines[first:first + 2]})
